@@ -111,6 +111,7 @@ func (s *tunnelServer) serve(tunnelMetadata metadata.MD) error {
 		if err != nil {
 			return err
 		}
+		verifYield("srv.frame.dispatch", in.StreamId)
 		str.acceptClientFrame(in.Frame)
 	}
 }
